@@ -1,11 +1,13 @@
 \* C20 design check: the pipeline (with the repaired unsupported-encoding rule) satisfies C20 on every configuration.
 CONSTANTS
   UnsupportedRule = "pass"
+  HeadRule = "pass"
+  CtRule = "caseinsensitive"
   ParseRule = "scripting"
   CspRule = "policylist"
   LengthRule = "set"
   EmitCases = FALSE
 INIT Init
 NEXT Next
-INVARIANTS TypeOK PassThroughIsIdentity HtmlGetsExactlyOneScript DocumentOnlyAppendedTo LengthMatchesBody EncodingHeaderDescribesBody
+INVARIANTS TypeOK PassThroughIsIdentity HtmlGetsExactlyOneScript DocumentOnlyAppendedTo LengthMatchesBody EncodingHeaderDescribesBody HeadIsUntouched
 CHECK_DEADLOCK FALSE
